@@ -101,7 +101,14 @@ def cmdPipeline (j : Json) : Except String Json := do
     match r with
     | .error e => Json.mkObj [("outcome", Json.str (offErrName e))]
     | .ok t => jTables t
+  let comps (series : List (Int × List (α × α))) : Json :=
+    let sorted := sortByFirst (series.zipIdx.map (fun p => (p.2, rebase p.1.2)))
+    let hm := headMapping step (sorted.map (·.2))
+    Json.mkObj [("sizes", jList (fun g : List Int × List Nat => Json.arr #[jNat g.1.length, jNat g.2.length]) (components hm)),
+                ("kept_levels", jNat (mainComponent hm).length)]
   pure (Json.mkObj [
+    ("rise_components", comps (riseSeries db (sortPairs pairs))),
+    ("recession_components", comps (recessionSeries db (sortInter inter))),
     ("grid", jList jInt (zetaGridOf db step)),
     ("rise_series", jList (fun s : Int × List (α × α) => Json.arr #[jInt s.1, jList (fun p : α × α => Json.arr #[encA p.1, encA p.2]) s.2]) (riseSeries db (sortPairs pairs))),
     ("rise", enc (riseCurveTables db pairs step rref)),
